@@ -55,6 +55,13 @@ def instantiate(I, cls, args, kw):
     if I.opaque_outside is not None and (mod.startswith('kmip')) and \
             not any(mod == m or mod.startswith(m + '.') for m in I.opaque_outside):
         return opaque_external(I, "%s.%s()" % (mod, cls.__name__), args, kw)
+    if cls.__name__ == 'ProtocolVersion' and mod == 'kmip.core.messages.contents' and \
+            all(isinstance(a, int) for a in list(args) + list(kw.values())):
+        # a pure value class built from concrete integers: the real object (its methods are the real code)
+        try:
+            return cls(*args, **kw)
+        except Exception as e:
+            I.raise_py(type(e), *e.args)
     if mod.startswith('kmip') or mod.startswith('contracts'):
         hook = INSTANTIATE_HOOKS.get(cls)
         if hook is not None:
